@@ -29,7 +29,7 @@ func (ex *Exec) runInits(st *State, fn *ssa.Function) {
 	defer func() { ex.mode = savedMode; ex.initMode = false }()
 	for _, pkg := range order {
 		if pkg.Pkg.Name() == "mimetype" {
-			continue
+			continue // the tree is not imported: tree functions are verified against TI
 		}
 		initFn := pkg.Func("init")
 		if initFn == nil || initFn.Blocks == nil || initFn == top {
